@@ -202,6 +202,17 @@ def eval_container(res, cont, node, entries):
                                for k, vs in d.items()}
                 else:
                     val = {}
+                    raws = {}
+                    for dk, dv in c.get("defaults") or []:
+                        raws.setdefault(family.norm_key(kt, dk),
+                                        set()).add(dk)
+                    if kind == "multikey" and any(len(r) > 1
+                                                  for r in raws.values()):
+                        # the order of default values whose differently
+                        # spelled keys normalise to one key is not pinned
+                        # by the statement
+                        raise Unjudged("wildcard defaults with differently "
+                                       "spelled colliding keys")
                     for dk, dv in c.get("defaults") or []:
                         try:
                             nk = family.norm_key(kt, dk)
